@@ -87,6 +87,52 @@ def mnemonics(sim):
     return " ; ".join(i["mn"] for i in ins)
 
 
+from .. import bounds
+
+
+def check_protection(ck, rule, tm, rootname, variant, ev, dst, nbytes, role):
+    """The closest preceding protection change covers the write (kernel rounds to pages) and allows writing (C01 R1.3; repeated by
+    the shared reach rule: a call cannot reach the fake through an entry that could not be written)."""
+    prot = ev_before(variant, ev, lambda e: e.kind == "ffi" and e.name in PROTECT_FFI)
+    key = "%s/%s" % (tm.os, role)
+    if prot is None:
+        ck.ob(rule, key + "/no-protection-change", tm.target, False,
+              "%s write of %s bytes at %s in %s is not preceded by any protection change" % (role, fmt(nbytes.e), fmt(dst.e, 3), short(rootname)),
+              where(ev))
+        return
+    if prot.name == "mach2::vm::mach_vm_protect":
+        start, size = prot.args[1], prot.args[2]
+    else:
+        start, size = prot.args[0], prot.args[1]
+    P = bounds.find_page(start.e) or bounds.find_page(size.e) or leaf("page_size", 64)
+    w = tm.ptr_bits
+    pm1 = binop("sub", P, const(1, w), w)
+    cov_end = binop("and", binop("add", binop("add", start.e, size.e, w), pm1, w), not_(pm1), w)
+    wr_end = binop("add", dst.e, nbytes.e, w)
+    ok_lo, why_lo = bounds.prove_ge(dst.e, binop("and", start.e, not_(pm1), w), w, P)
+    ok_hi, why_hi = bounds.prove_ge(cov_end, wr_end, w, P)
+    helper = short(fn_of_event(prot))
+    k2 = "%s/%s/%s" % (tm.os, short(prot.name), "covers-write")
+    ck.ob(rule, k2, tm.target, ok_lo and ok_hi,
+          "protection change %s(start=%s, size=%s) in %s before the %s write of %s byte(s) at %s: start<=dst %s (%s); "
+          "page_up(start+size) >= dst+len %s (%s)%s" % (
+              short(prot.name), fmt(start.e, 4), fmt(size.e, 3), helper, role, fmt(nbytes.e), fmt(dst.e, 3),
+              "proved" if ok_lo else "NOT provable", why_lo, "proved" if ok_hi else "NOT provable", why_hi,
+              "" if ok_hi else " — counter-example class: the patch straddles a page boundary (page offset o with o + len > page size), "
+              "the second page keeps its old protection and the copy faults"),
+          where(prot), witness={"start": fmt(start.e, 6), "size": fmt(size.e, 6), "dst": fmt(dst.e, 6), "len": fmt(nbytes.e)})
+    # protection value must allow writing (and executing on non-macOS)
+    if prot.name != "mach2::vm::mach_vm_protect":
+        pv = prot.args[2]
+        if isinstance(pv, Int) and pv.is_const():
+            v = pv.cval()
+            need = 7 if tm.os == "linux" else 0x40
+            good = (v & 7) == 7 if tm.os == "linux" else v in (0x40, 0x80)
+            ck.ob(rule, "%s/%s/prot-value" % (tm.os, short(prot.name)), tm.target, good,
+                  "protection constant %#x %s read|write|execute" % (v, "includes" if good else "does NOT include"), where(prot))
+
+
+
 def reach_obligations(ck, rule, tm, want_root, label):
     """Shared necessary condition of every property that speaks about what a call to the faked function does: on each
     returning path of the selected install roots, the entry patch decodes to a transfer to the trampoline (or, without one,
@@ -106,6 +152,8 @@ def reach_obligations(ck, rule, tm, want_root, label):
             continue
         n += 1
         mn = mnemonics(r.sim)
+        if r.role == "entry":
+            check_protection(ck, rule, tm, r.root, r.variant, r.ev, r.dst, r.ev.extra["count"], "entry")
         if tm.arch == "arm":
             t = r.sim["transfer"]
             ok, why = False, "no BX through a loaded literal"
@@ -212,4 +260,32 @@ def convention_obligations(ck, rules, tm, want=lambda r: True):
             reg = t["reg"]
             ck.ob(rules[2], "%s/%s%s/%s/load-branch-register" % (tm.arch, rn, cname, r.role), tm.target, reg in wr,
                   "branch through %s; registers loaded by the sequence: %s" % (reg, sorted(wr)), where(r.ev))
+    return n
+
+
+def jit_window_obligations(ck, rule, tm):
+    """macOS (MAP_JIT): a thread may write to its JIT mappings only between pthread_jit_write_protect_np(0) and (1), and may
+    execute from them only outside that window. Every write into the installation's trampoline must therefore have the toggle
+    with argument 0 as the latest toggle before it and a toggle with argument 1 after it (before the path returns): the other
+    way round the write faults, or the trampoline is left non-executable."""
+    if tm.os != "macos":
+        return 0
+    n = 0
+    for p, func, repl, boolval in roots_and_roles(tm):
+        rn = short(p)
+        for v in tm.variants(p):
+            if v.status != "returned":
+                continue
+            tog = [e for e in v.trace if e.kind == "ffi" and e.name.endswith("pthread_jit_write_protect_np")]
+            for ev, role, dst, real, alias in classify_writes(v, func):
+                if role != "trampoline":
+                    continue
+                n += 1
+                before = [e for e in tog if e.idx < ev.idx]
+                after = [e for e in tog if e.idx > ev.idx]
+                arg = lambda e: e.args[0].cval() if e.args and isinstance(e.args[0], Int) and e.args[0].is_const() else None
+                ok = bool(before) and arg(before[-1]) == 0 and bool(after) and arg(after[0]) == 1
+                ck.ob(rule, "%s/jit-write-window" % rn, tm.target, ok,
+                      "trampoline write: latest toggle before it = %s, first toggle after it = %s (expected 0 then 1)" % (
+                          arg(before[-1]) if before else "none", arg(after[0]) if after else "none"), where(ev))
     return n
